@@ -7,6 +7,10 @@ import os
 HERE = os.path.dirname(os.path.dirname(os.path.abspath(__file__)))
 
 CLAIMED = {
+ "C04": dict(engine="K+M", category="model_checking", design="DESIGN.md 3/C04",
+   technique="Kani/CBMC on the lexer's conversion kernels + MIR symbolic execution/z3 on the glue between phases; nasty-text replay on oal-cli and oal_wasm::compile",
+   text="Partial: the conversion kernels and the glue between phases, not lexer+parser+compiler as a whole. Kani: parse_number on every [0-9]{1,24} string, parse_quoted_string / parse_prefixed_string on every delimiter + <= K arbitrary scalar values (K=3 quick, 6 thorough), parse_http_status on [1-5]XX, CharSpan::from on every text <= K chars and every usize pair never panic and return the specified slice/value (token regexes are compared with the #[regex] attributes at run time). MIR+z3: oal_syntax::parse returns no tree only after pushing an error (from lemmas: tokenize always returns Some, compose_node always returns Node, parse_program returns Ok((_, compose_node(..)))); WebLoader::parse's unwrap is unreachable under that contract, ProcLoader/WorkspaceLoader never unwrap; Context::span past the end is end..end+1 without a token lookup; occurs() descends into every Tag child (guard against a diverging reduce); every panicking path in the front-end glue functions is either refuted or rests on a listed environment contract.",
+   note="Trusted: Kani/CBMC, rustc MIR, mirsym, z3; stub Locator. Outside: the logos DFA, parser productions, resolver, evaluator, nesting depth, the LSP process, literals > 24 digits. Kernel counterexamples are replayed natively (Kani concrete playback) and through oal-cli / oal_wasm::compile; lemma failures are reported only if a nasty-text run of the real front ends crashes."),
  "C07": dict(engine="M", category="model_checking", design="DESIGN.md 3/C07",
    technique="symbolic execution of MIR (one step from an arbitrary state) + z3; real-CLI verdict matrix as replay",
    text="Partial: step lemmas, not the end-to-end statement. occurs(): for every Tag variant and every Tag-typed child position read from the enum declaration, no feasible path returns false without recursing into that child (closures of iterator adaptors followed). unify(): union(x,y) is reached only with x a variable, after occurs(x,y) returned false, on (reduce(left),reduce(right)) up to orientation; literal Ok otherwise only when the reduced operands are equal; Func/Func requires equal binding counts and recurses on ranges and on every zipped binding pair; Property/Property recurses on the payloads; everything else is Err. UnionFind::union writes exactly parents[rep(left)] = rep(right); reduce/reduce_mut loop bodies move to the parent and stop exactly at a fixed point; find and the free reduce() substitute inside every child. Values unbounded; one loop iteration / one recursion level per lemma.",
@@ -41,7 +45,6 @@ NA = {
 PENDING = {
  "C01": "check under construction (engine T+M); not yet registered",
  "C03": "check under construction (engines K+M); not yet registered",
- "C04": "check under construction (engines K+M); not yet registered",
  "C15": "check under construction (engines K+M); not yet registered",
 }
 
